@@ -1,8 +1,293 @@
-"""The individual contracts (see contracts.py).  Filled in per property."""
+"""The individual online contracts (see contracts.py).
+
+Each contract wraps a real hypnotoad function (module attributes are patched in every
+module that binds the name), evaluates a post-condition on every call made while the real
+grid generator runs, counts its evaluations and records violations instead of raising, so
+one defect does not mask the rest.  Names are '<property>.<contract>'.
+"""
+
+import functools
+import threading
+
+import numpy as np
+
+_tl = threading.local()
+
+
+def _wall_distance(closed, R, Z):
+    """float distance from (R,Z) to the closed polyline `closed` (n,2)."""
+    a = closed[:-1]
+    b = closed[1:]
+    m = b - a
+    mm = np.maximum((m * m).sum(axis=1), 1e-300)
+    t = np.clip(((R - a[:, 0]) * m[:, 0] + (Z - a[:, 1]) * m[:, 1]) / mm, 0.0, 1.0)
+    q = a + t[:, None] * m
+    return float(np.sqrt(((q[:, 0] - R) ** 2 + (q[:, 1] - Z) ** 2).min()))
 
 
 def install_all(count, violate):
-    pass
+    import hypnotoad.core.equilibrium as eqm
+    import hypnotoad.core.mesh as mesh
+
+    PsiContour = eqm.PsiContour
+    Equilibrium = eqm.Equilibrium
+    EquilibriumRegion = eqm.EquilibriumRegion
+
+    # ---- C01: refinePoint puts the point on its flux surface --------------------------------
+    for mname in ("refinePointNewton", "refinePointLinesearch", "refinePointIntegrate"):
+        orig = getattr(PsiContour, mname)
+
+        def mk(orig, mname):
+            @functools.wraps(orig)
+            def w(self, *a, **k):
+                r = orig(self, *a, **k)
+                _tl.last_method = mname
+                return r
+
+            return w
+
+        setattr(PsiContour, mname, mk(orig, mname))
+
+    orig_refinePoint = PsiContour.refinePoint
+
+    @functools.wraps(orig_refinePoint)
+    def refinePoint(self, p, tangent, *, psi, width=None, atol=None, methods=None, **kwargs):
+        _tl.last_method = None
+        r = orig_refinePoint(self, p, tangent, psi=psi, width=width, atol=atol, methods=methods, **kwargs)
+        if self.psival is not None and getattr(_tl, "last_method", None) is not None:
+            at = atol if atol is not None else self.user_options.refine_atol
+            resid = abs(float(psi(r.R, r.Z)) - self.psival)
+            tol = 1.5 * at * max(1.0, abs(self.psival))
+            if _tl.last_method == "refinePointIntegrate":
+                # documented: the pure 'integrate' fall-back does not honour atol
+                count("C01.refinePoint(integrate fall-back, atol not honoured)")
+                if resid > 1e4 * tol:
+                    violate("C01.refinePoint", {"resid": resid, "tol": tol, "method": "integrate", "psival": self.psival})
+            else:
+                count("C01.refinePoint")
+                if not (resid <= tol):
+                    violate("C01.refinePoint", {"resid": resid, "tol": tol, "method": _tl.last_method, "psival": self.psival, "point": [r.R, r.Z]})
+        return r
+
+    PsiContour.refinePoint = refinePoint
+
+    # ---- C01/C04: followPerpendicular returns one point per requested psi, in order ----------
+    orig_fp = mesh.followPerpendicular
+
+    @functools.wraps(orig_fp)
+    def followPerpendicular(i, p0, psi0, *, f_R, f_Z, psivals, rtol=2.0e-8, atol=1.0e-8, maxits=1000, recover=False, **kwargs):
+        res = orig_fp(i, p0, psi0, f_R=f_R, f_Z=f_Z, psivals=psivals, rtol=rtol, atol=atol, maxits=maxits, recover=recover, **kwargs)
+        if i is not None and not recover:  # top-level calls only (recursive calls pass i=None)
+            count("C04.followPerpendicular")
+            pv = np.asarray(psivals, float)
+            if len(res) != len(pv):
+                violate("C04.followPerpendicular", {"what": "number of points", "got": len(res), "want": len(pv)})
+            else:
+                psi = kwargs.get("psi")
+                if psi is not None and len(pv) > 1:
+                    got = np.array([float(psi(q.R, q.Z)) for q in res])
+                    rng = max(abs(pv[-1] - pv[0]), 1e-300)
+                    err = float(np.abs(got - pv).max()) / rng
+                    if not (err <= 1e-5):
+                        violate("C04.followPerpendicular", {"what": "psi at the returned points vs requested psivals (order preserved)", "err_rel": err, "psivals": pv.tolist()[:6], "got": got.tolist()[:6]})
+        return res
+
+    mesh.followPerpendicular = followPerpendicular
+
+    # ---- C05: contour distances strictly increasing ----------------------------------------------
+    orig_gd = PsiContour.get_distance
+
+    @functools.wraps(orig_gd)
+    def get_distance(self, *, psi):
+        fresh = self._distance is None
+        d = orig_gd(self, psi=psi)
+        if fresh:
+            count("C05.get_distance")
+            a = np.asarray(d, float)
+            if not np.all(np.diff(a) > 0):
+                violate("C05.get_distance", {"what": "distance along a contour not strictly increasing", "n": len(a)})
+        return d
+
+    PsiContour.get_distance = get_distance
+
+    # ---- C08: makeConnection symmetric, equal nx -------------------------------------------------
+    orig_mc = Equilibrium.makeConnection
+
+    @functools.wraps(orig_mc)
+    def makeConnection(self, lowerRegion, lowerSegment, upperRegion, upperSegment):
+        r = orig_mc(self, lowerRegion, lowerSegment, upperRegion, upperSegment)
+        count("C08.makeConnection")
+        lo, up = self.regions[lowerRegion], self.regions[upperRegion]
+        if lo.connections[lowerSegment]["upper"] != (upperRegion, upperSegment) or up.connections[upperSegment]["lower"] != (lowerRegion, lowerSegment):
+            violate("C08.makeConnection", {"what": "connection not symmetric", "args": [lowerRegion, lowerSegment, upperRegion, upperSegment]})
+        if lo.nx[lowerSegment] != up.nx[upperSegment]:
+            violate("C08.makeConnection", {"what": "joined edges of unequal size", "args": [lowerRegion, lowerSegment, upperRegion, upperSegment]})
+        return r
+
+    Equilibrium.makeConnection = makeConnection
+
+    # ---- C09: radial spacing function on the real calls ---------------------------------------------
+    orig_sm = Equilibrium.getSmoothMonotonicGridFunc
+    calls = []
+    _tl.c09_calls = calls
+
+    @functools.wraps(orig_sm)
+    def getSmoothMonotonicGridFunc(self, n, lower, upper, *, grad_lower=None, grad_upper=None):
+        f = orig_sm(self, n, lower, upper, grad_lower=grad_lower, grad_upper=grad_upper)
+        count("C09.getSmoothMonotonicGridFunc")
+        R = max(abs(upper - lower), 1e-300)
+        v = np.array([float(f(x)) for x in np.linspace(0, n, 2 * n + 1)])
+        if abs(v[0] - lower) > 1e-9 * R or abs(v[-1] - upper) > 1e-9 * R:
+            violate("C09.getSmoothMonotonicGridFunc", {"what": "end values", "f0": v[0], "fn": v[-1], "lower": lower, "upper": upper})
+        h = 1e-4
+        if grad_lower is not None:
+            g = (-3 * float(f(0.0)) + 4 * float(f(h)) - float(f(2 * h))) / (2 * h)
+            if abs(g / grad_lower - 1) > 1e-4:
+                violate("C09.getSmoothMonotonicGridFunc", {"what": "gradient at lower end", "got": g, "want": grad_lower})
+        if grad_upper is not None:
+            g = (3 * float(f(float(n))) - 4 * float(f(n - h)) + float(f(n - 2 * h))) / (2 * h)
+            if abs(g / grad_upper - 1) > 1e-4:
+                violate("C09.getSmoothMonotonicGridFunc", {"what": "gradient at upper end", "got": g, "want": grad_upper})
+        # pair with earlier calls sharing the boundary value: equal gradient on both sides
+        for c in calls:
+            for (va, ga), (vb, gb) in (((c["upper"], c["grad_upper"]), (lower, grad_lower)), ((c["lower"], c["grad_lower"]), (upper, grad_upper)), ((c["upper"], c["grad_upper"]), (upper, grad_upper)), ((c["lower"], c["grad_lower"]), (lower, grad_lower))):
+                if va == vb and ga is not None and gb is not None:
+                    count("C09.equal_gradient_either_side_of_a_separatrix")
+                    if abs(ga - gb) > 1e-12 * max(abs(ga), abs(gb)):
+                        violate("C09.equal_gradient_either_side_of_a_separatrix", {"boundary": va, "gradients": [ga, gb]})
+        calls.append({"n": n, "lower": lower, "upper": upper, "grad_lower": grad_lower, "grad_upper": grad_upper})
+        return f
+
+    Equilibrium.getSmoothMonotonicGridFunc = getSmoothMonotonicGridFunc
+
+    # ---- C10: guarded poloidal spacing functions ------------------------------------------------------
+    def check_sfunc(name, region, sfunc, npoints, total=None):
+        try:
+            idx = np.arange(-region.extend_lower, npoints + region.extend_upper, dtype=float)
+            v = np.asarray(sfunc(idx.copy()), float)
+        except Exception as e:  # noqa: BLE001
+            violate(name, {"what": "returned spacing function cannot be evaluated on the used indices", "exc": repr(e)[:200]})
+            return
+        count(name)
+        if np.any(np.diff(v) < 0):
+            violate(name, {"what": "spacing function decreasing on the used index range", "region": region.name, "values": v.tolist()[:12]})
+        s0 = float(np.asarray(sfunc(np.array(0.0))))
+        if total is not None and abs(s0) > 1e-9 * max(total, 1e-300):
+            violate(name, {"what": "s(0) != 0", "s0": s0, "region": region.name})
+        if total is not None:
+            sN = float(np.asarray(sfunc(np.array(float(npoints - 1)))))
+            if abs(sN - total) > 1e-7 * max(total, 1e-300):
+                violate(name, {"what": "s(N) != contour length", "sN": sN, "L": total, "region": region.name})
+
+    orig_fs = EquilibriumRegion.getSfuncFixedSpacing
+
+    @functools.wraps(orig_fs)
+    def getSfuncFixedSpacing(self, npoints, distance, *, method=None, spacing_lower=None, spacing_upper=None):
+        f = orig_fs(self, npoints, distance, method=method, spacing_lower=spacing_lower, spacing_upper=spacing_upper)
+        check_sfunc("C10.getSfuncFixedSpacing", self, f, npoints, total=distance)
+        return f
+
+    EquilibriumRegion.getSfuncFixedSpacing = getSfuncFixedSpacing
+
+    orig_cs = EquilibriumRegion.combineSfuncs
+
+    @functools.wraps(orig_cs)
+    def combineSfuncs(self, contour, sfunc_orthogonal, *a, **k):
+        f = orig_cs(self, contour, sfunc_orthogonal, *a, **k)
+        check_sfunc("C10.combineSfuncs", self, f, 2 * self.ny_noguards + 1)
+        return f
+
+    EquilibriumRegion.combineSfuncs = combineSfuncs
+
+    # sqrt spacing: every region of one grid is built with the same normalisation count
+    orig_sq = EquilibriumRegion.getSqrtPoloidalDistanceFunc
+    nnorms = set()
+
+    @functools.wraps(orig_sq)
+    def getSqrtPoloidalDistanceFunc(self, length, N, N_norm, **k):
+        f = orig_sq(self, length, N, N_norm, **k)
+        count("C10.N_norm_same_for_all_regions")
+        nnorms.add(float(N_norm))
+        if len(nnorms) > 1:
+            violate("C10.N_norm_same_for_all_regions", {"N_norm_values": sorted(nnorms), "region": self.name})
+        return f
+
+    EquilibriumRegion.getSqrtPoloidalDistanceFunc = getSqrtPoloidalDistanceFunc
+
+    # getRegridded keeps the end points of the contour
+    orig_rg = PsiContour.getRegridded
+
+    @functools.wraps(orig_rg)
+    def getRegridded(self, npoints, *, psi, **k):
+        p_start = self[self.startInd]
+        p_end = self[self.endInd]
+        new = orig_rg(self, npoints, psi=psi, **k)
+        count("C10.getRegridded_keeps_end_points")
+        a, b = new[new.startInd], new[new.endInd]
+        d = max(np.hypot(a.R - p_start.R, a.Z - p_start.Z), np.hypot(b.R - p_end.R, b.Z - p_end.Z))
+        if d > 0.0:
+            violate("C10.getRegridded_keeps_end_points", {"moved_by": float(d)})
+        if new.endInd - new.startInd != npoints - 1:
+            violate("C10.getRegridded_keeps_end_points", {"what": "number of points between startInd and endInd", "got": new.endInd - new.startInd + 1, "want": npoints})
+        return new
+
+    PsiContour.getRegridded = getRegridded
+
+    # ---- C11: wall intersection points -----------------------------------------------------------------
+    orig_fi = mesh._find_intersection
+
+    @functools.wraps(orig_fi)
+    def _find_intersection(i_contour, contour, *, equilibrium, lower_wall, upper_wall, max_extend, psi=None, **kwargs):
+        res = orig_fi(i_contour, contour, equilibrium=equilibrium, lower_wall=lower_wall, upper_wall=upper_wall, max_extend=max_extend, psi=psi, **kwargs)
+        c, li, lp, ui, up = res
+        psi_ = psi if psi is not None else equilibrium.psi
+        for which, pt in (("lower", lp), ("upper", up)):
+            if pt is None:
+                continue
+            count("C11._find_intersection")
+            dw = _wall_distance(equilibrium.closed_wallarray, pt.R, pt.Z)
+            dpsi = abs(float(psi_(pt.R, pt.Z)) - c.psival)
+            tol = 1.5 * c.user_options.refine_atol * max(1.0, abs(c.psival))
+            if dw > 1e-4 or dpsi > tol:
+                violate("C11._find_intersection", {"which": which, "distance_to_wall": dw, "psi_error": dpsi, "tol": tol})
+        return res
+
+    mesh._find_intersection = _find_intersection
+
+    orig_ap = mesh.MeshRegion.addPointAtWallToContours
+
+    @functools.wraps(orig_ap)
+    def addPointAtWallToContours(self):
+        r = orig_ap(self)
+        eq = self.meshParent.equilibrium
+        for c in self.contours:
+            for wall_end, ind in ((self.connections["lower"] is None, c.startInd), (self.connections["upper"] is None, c.endInd)):
+                if not wall_end:
+                    continue
+                count("C11.addPointAtWallToContours")
+                p = c[ind]
+                dw = _wall_distance(eq.closed_wallarray, p.R, p.Z)
+                if dw > 1e-4:
+                    violate("C11.addPointAtWallToContours", {"what": "contour[startInd/endInd] is not the wall point", "distance_to_wall": dw, "region": self.name, "index": ind, "len": len(c)})
+        return r
+
+    mesh.MeshRegion.addPointAtWallToContours = addPointAtWallToContours
+
+    # ---- C13: ParallelMap returns one result per task ----------------------------------------------------
+    import hypnotoad.utils.parallel_map as pmod
+
+    orig_call = pmod.ParallelMap.__call__
+
+    @functools.wraps(orig_call)
+    def pm_call(self, function, args_list, **kwargs):
+        args_list = tuple(args_list)
+        res = orig_call(self, function, args_list, **kwargs)
+        count("C13.ParallelMap_one_result_per_task")
+        if len(res) != len(args_list) or any(x is None for x in res):
+            violate("C13.ParallelMap_one_result_per_task", {"n_tasks": len(args_list), "n_results": len(res), "function": getattr(function, "__name__", "?")})
+        return res
+
+    pmod.ParallelMap.__call__ = pm_call
 
 
 def install_delays(cfg):
@@ -10,7 +295,6 @@ def install_delays(cfg):
     that worker completion orders are permuted (C13).  The wrappers keep the original
     __module__/__qualname__ and replace the module attribute, so they pickle by reference
     and are found again inside the (forked) workers."""
-    import functools
     import os
     import random
     import time
@@ -24,7 +308,7 @@ def install_delays(cfg):
     def wrap(fn):
         @functools.wraps(fn)
         def w(*a, **k):
-            rnd = random.Random((seed, os.getpid(), time.monotonic_ns()).__hash__())
+            rnd = random.Random(hash((seed, os.getpid(), time.monotonic_ns())))
             time.sleep(rnd.random() * max_s)
             return fn(*a, **k)
 
